@@ -20,9 +20,9 @@ import (
 const childEnv = "VERIF_C10_CHILD"
 
 type childSpec struct {
-	Op   int         `json:"op"`
-	Emb  latgeo.Emb  `json:"emb"`
-	Data []float64   `json:"data"`
+	Op   int        `json:"op"`
+	Emb  latgeo.Emb `json:"emb"`
+	Data []float64  `json:"data"`
 }
 
 func init() {
